@@ -14,8 +14,13 @@
    (any functions; injectivity of md5 is not assumed).  [s_last_ok] is the ghost: what the last
    successful execution / reset-dep of the task observed (definition, checker, file system).
    DB backends enter through C07 (each is the same map); the runners through run_task_ops
-   (History.v): what a runner does with a task is a list of these operations. *)
-From DoitV Require Import Base Status History StatusP HistoryP.
+   (History.v): what a runner does with a task is a list of these operations.
+   Histories treat an uptodate item as a value evaluated on its declared input NOW.  Where the dodo
+   namespace outlives one run (several DoitMain.run / doit.api.run_tasks calls of one program, %doit) the
+   same item INSTANCE is evaluated in many runs while its input is edited in place: Model/ItemObj.v is the
+   object (tools.config_changed, the only item of the model with an attribute that survives a call) and the
+   last section states that instances in ANY state answer and save what the item values of Status.v do. *)
+From DoitV Require Import Base Status History StatusP HistoryP ItemObj ItemObjP.
 Open Scope Z_scope.
 
 (* histories that only use the forward-clock writes satisfy FS-fresh by construction *)
@@ -174,3 +179,56 @@ Proof.
   split; [reflexivity|]. cbv zeta. split; vm_compute; reflexivity.
 Qed.
 Print Assumptions C03_checker_switch_legacy_refuted.
+
+(* ---- item INSTANCES that outlive a run (Model/ItemObj.v) ---- *)
+(* a config_changed instance that was used before -- any number of calls, for any task, under any earlier
+   configuration: any state [o] -- answers exactly what the item value of Status.v answers for the digest the
+   configuration has NOW, and its saver then records that digest *)
+Theorem C03_config_instance_has_no_memory : forall (o : ccobj) (now : N) (d : db) (t : name),
+  snd (cc_call CCcurrent o now (get_values d t)) = eval_utd d t (UConfig now) /\
+  cc_saver (fst (cc_call CCcurrent o now (get_values d t))) = saver d (UConfig now).
+Proof. intros o now d t. split; [exact (f_equal snd (cc_call_current o now d t)) | exact (cc_saver_after_call o now (get_values d t) d)]. Qed.
+Print Assumptions C03_config_instance_has_no_memory.
+
+(* the whole life of one instance in a process (calls under changing configurations and DB values, runs of its
+   saver) is observed exactly as if every call had been made on an instance created for it *)
+Theorem C03_config_instance_life_as_fresh : forall (o : ccobj) (evs : list cev),
+  cc_life CCcurrent o evs = cc_life_fresh CCcurrent o evs.
+Proof. intros o evs. exact (cc_life_current_fresh evs o). Qed.
+Print Assumptions C03_config_instance_life_as_fresh.
+
+(* get_status + save_extra_values of one task on instances in ANY state [os] (one per item): the list of item
+   verdicts is the [map (eval_utd d t)] that get_status of Status.v decides on, and the values saved after the
+   execution are [save_extra_values] -- so every theorem above also speaks about runs that share instances *)
+Theorem C03_items_on_persistent_instances : forall (d : db) (t : name) (df : tdef) (os : list ccobj),
+  length os = length (uptodate df) ->
+  snd (eval_items_obj CCcurrent d t (uptodate df) os) = map (eval_utd d t) (uptodate df) /\
+  save_extra_values_obj d df (fst (eval_items_obj CCcurrent d t (uptodate df) os)) = save_extra_values d df.
+Proof.
+  intros d t df os H. pose proof (items_on_instances d t df os H) as P.
+  destruct (eval_items_obj CCcurrent d t (uptodate df) os) as [os' bs]. exact (conj (proj1 P) (proj2 P)).
+Qed.
+Print Assumptions C03_items_on_persistent_instances.
+
+(* non-vacuity: an instance first used under configuration 1, then asked under configuration 2 with 1 recorded *)
+Example C03_config_instance_nonvacuous :
+  let o := fst (cc_call CCcurrent cc_new 1%N []) in
+  cc_digest o = Some 1%N /\ snd (cc_call CCcurrent o 2%N [(k_config, Some 1%N)]) = Some false /\
+  snd (cc_call CCcurrent o 1%N [(k_config, Some 1%N)]) = Some true.
+Proof. vm_compute. repeat split. Qed.
+
+(* an instance that keeps the digest it computed first (`if self.config_digest is None: ...`) is refuted: used in a
+   first run under configuration [last] (recorded), it answers "unchanged" under another configuration [now] ... *)
+Theorem C03_config_instance_cached_refuted :
+  exists (o : ccobj) (now last : N),
+    now <> last /\ snd (cc_call CCcached o now [(k_config, Some last)]) = Some true /\
+    snd (cc_call CCcurrent o now [(k_config, Some last)]) = Some false /\
+    o = fst (cc_call CCcached cc_new last []).
+Proof. exact cc_cached_stale. Qed.
+Print Assumptions C03_config_instance_cached_refuted.
+(* ... and after an execution under [now] it records the digest of the FIRST configuration *)
+Theorem C03_config_instance_cached_saves_stale_refuted :
+  exists (now first : N), now <> first /\
+    cc_saver (fst (cc_call CCcached (fst (cc_call CCcached cc_new first [])) now [])) = [(k_config, Some first)].
+Proof. exact cc_cached_saves_stale. Qed.
+Print Assumptions C03_config_instance_cached_saves_stale_refuted.
